@@ -77,7 +77,7 @@ func guardTable(c *Ctx) map[string]map[string][]string {
 		for _, fn := range verifierFuncs(c, z) {
 			var keys []string
 			seen := map[string]bool{}
-			for _, g := range rejectGuards(fn) {
+			for _, g := range liftedGuards(fn, 0) {
 				k := g.key()
 				if !seen[k] {
 					seen[k] = true
@@ -318,14 +318,14 @@ func runC10(c *Ctx, r *Run) {
 			found := false
 			covers := false
 			for _, fn := range verifierFuncs(c, z) {
-				for _, g := range rejectGuards(fn) {
-					if !strings.HasSuffix(g.decider, "."+pred) {
+				for _, g := range liftedGuards(fn, 0) {
+					if !decHasSuffix(g.decider, "."+pred) {
 						continue
 					}
 					for _, f := range g.fields {
 						if strings.HasSuffix(f, "."+field) {
 							found = true
-							if guardCoversAccepts(g) {
+							if !g.notCovering && guardCoversAccepts(g) {
 								covers = true
 							}
 						}
@@ -360,7 +360,7 @@ func runC10(c *Ctx, r *Run) {
 			for _, fn := range verifierFuncs(c, z) {
 				r.Analysed(c.FuncName(fn))
 				m := map[string]guard{}
-				for _, g := range rejectGuards(fn) {
+				for _, g := range liftedGuards(fn, 0) {
 					if old, ok := m[g.key()]; !ok || (!guardCoversAccepts(old) && guardCoversAccepts(g)) {
 						m[g.key()] = g
 					}
